@@ -157,11 +157,14 @@ class World:
         self.header_fields = {n: lay[(i, mirty[t])] for i, (n, t) in enumerate(fields)}
         return lay
 
-    def thread(self, tname, fn_name, arg_sorts=(32, 32, 32, 32, 8)):
+    def thread(self, tname, fn_name, arg_sorts=(32, 32, 32, 32, 8), nown=1, init_owned=None):
+        """init_owned: {slot: (index of the u32 argument holding the offset, index of the size argument)}"""
         args = [ObjRef("arena")] + [z3.BitVec("%s!arg%d" % (tname, i), w) for i, w in enumerate(arg_sorts)]
-        t = TS.ThreadTS(tname, self.ex, fn_name, args)
+        io = {j: (args[1 + a], args[1 + b]) for j, (a, b) in (init_owned or {}).items()}
+        t = TS.ThreadTS(tname, self.ex, fn_name, args, nown=nown, init_owned=io)
         for a in args[1:]:
             t.tvars[str(a)] = a
+            t.const_names.add(str(a))
         t.arg_vars = args[1:]
         t.explore()
         return t
@@ -220,18 +223,35 @@ class World:
         inv = {"k": k, "off": off, "size": size, "allocated": allocated, "min_seg": min_seg, "discarded": discarded}
         return c, inv
 
-    def init_threads(self, M, inv=None, owned=None):
-        """pcs at start, bookkeeping cleared; `owned`: {(ti, slot): (off_var, size_var)} initially live ranges"""
+    def init_threads(self, M):
+        """pcs at start, monitor flags cleared, bookkeeping registers at their initial values"""
         c = []
-        owned = owned or {}
         for ti, t in enumerate(M.threads):
             c.append(M.pc[0][ti] == t.points[("start",)].id)
-            G = M.G[0][ti]
-            c += [z3.Not(G["corrupt"]), z3.Not(G["oob"]), G["spur"] == 0, G["unmounts"] == 0]
-            for j in range(M.nown):
-                if (ti, j) in owned:
-                    o, s = owned[(ti, j)]
-                    c += [G["live%d" % j], G["lo%d" % j] == o, G["hi%d" % j] == o + s, G["plo%d" % j] == o, G["phi%d" % j] == o + s]
+            F = M.F[0][ti]
+            c += [z3.Not(F["corrupt"]), z3.Not(F["oob"]), F["spur"] == 0, F["unmounts"] == 0]
+            for j in range(t.nown):
+                live, lo, hi, plo, phi = M.own(0, ti, j)
+                if j in t.init_owned:
+                    o, sz = t.init_owned[j]
+                    c += [live, lo == o, hi == o + sz, plo == o, phi == o + sz]
                 else:
-                    c.append(z3.Not(G["live%d" % j]))
+                    c += [z3.Not(live), lo == 0, hi == 0, plo == 0, phi == 0]
+        return c
+
+    def init_owned_ok(self, M, inv):
+        """initially held ranges: inside [data_offset, allocated), disjoint from every free segment and from each other"""
+        c = []
+        rngs = []
+        for ti, t in enumerate(M.threads):
+            for j, (o, sz) in t.init_owned.items():
+                rngs.append((o, sz))
+                c += [z3.UGE(o, self.dofs), z3.UGE(sz, 1), z3.ULE(sz, self.cap), z3.ULE(o, self.cap), z3.ULE(o + sz, inv["allocated"])]
+                for i in range(len(inv["off"])):
+                    act = z3.UGT(inv["k"], i)
+                    c.append(z3.Implies(act, z3.Or(z3.ULE(o + sz, inv["off"][i]), z3.ULE(inv["off"][i] + 8 + inv["size"][i], o))))
+        for a in range(len(rngs)):
+            for b in range(a + 1, len(rngs)):
+                (o1, s1), (o2, s2) = rngs[a], rngs[b]
+                c.append(z3.Or(z3.ULE(o1 + s1, o2), z3.ULE(o2 + s2, o1)))
         return c
